@@ -19,7 +19,43 @@ def first_word(s):
     return s.split(" ", 1)[0]
 
 
-def correspond2(ctx, impl, model, family, cases, sd, dd, classify=None):
+KNOWN_CLASSES = [
+    "nested-variable-checked-by-named-type-only",
+    "duplicate-field-inside-custom-scalar-object",
+    "undefined-variable-inside-custom-scalar-object",
+    "null-item-in-list-for-non-null-custom-scalar",
+    "subscription-root-fields-counted-ignoring-type-conditions",
+]
+
+
+def masks():
+    n = len(KNOWN_CLASSES)
+    singles = [tuple(i == k for i in range(n)) for k in range(n)]
+    pairs = [tuple(i in (a, b) for i in range(n)) for a in range(n) for b in range(a + 1, n)]
+    return singles + pairs + [tuple(True for _ in range(n))]
+
+
+def classify_batch(model, items, sd, dd):
+    """items: list of (case, impl verdict word).  For each, the smallest set of known-defect switches (Exec/Known.v)
+    under which the specification's verdict equals the implementation's; None if there is none."""
+    ms = masks()
+    lines = []
+    for c, iw in items:
+        for m in ms:
+            lines.append("".join("1" if b else "0" for b in m) + " " + sd[c["schema"]] + " " + dd[c["doc"]])
+    out = run_family(model, "c17_known", lines, shards=8) if lines else []
+    res = []
+    for k, (c, iw) in enumerate(items):
+        got = None
+        for j, m in enumerate(ms):
+            if first_word(out[k * len(ms) + j]) == iw:
+                got = [KNOWN_CLASSES[i] for i, b in enumerate(m) if b]
+                break
+        res.append(got)
+    return res
+
+
+def correspond2(ctx, impl, model, family, cases, sd, dd):
     """cases: list of dicts {schema, doc, label, ...}.  Compares only valid/invalid.
     Returns rows (case, impl line, model line); rows whose model line is outside-limits are not compared."""
     cases = [c for c in cases if sd.get(c["schema"]) is not None and dd.get(c["doc"]) is not None]
@@ -29,7 +65,7 @@ def correspond2(ctx, impl, model, family, cases, sd, dd, classify=None):
     iout = run_family(impl, family, ilines, shards=8)
     mout = run_family(model, family, mlines, shards=8)
     fam = ctx.cov["families"].setdefault(family, {"cases": 0, "agree": 0, "known": 0, "outside_limits": 0})
-    rows = []
+    rows, dis = [], []
     for c, io, mo in zip(cases, iout, mout):
         if mo.startswith("model-") or mo == "fuel" or mo.startswith("died") or mo == "timeout":
             raise MachineryError(f"model runner failed on {family}: {mo}\n{c['doc']}")
@@ -41,9 +77,14 @@ def correspond2(ctx, impl, model, family, cases, sd, dd, classify=None):
         rows.append((c, io, mo))
         if first_word(io) == first_word(mo):
             fam["agree"] += 1
-            continue
-        cls = classify(c, io, mo) if classify else None
-        if cls and ctx.known_hit(cls):
+        else:
+            dis.append((c, io, mo))
+    classes = classify_batch(model, [(c, first_word(io)) for c, io, mo in dis], sd, dd)
+    for (c, io, mo), cls in zip(dis, classes):
+        c["known_classes"] = cls
+        if cls and all(any(k["class"] == x for k in ctx.known) for x in cls):
+            for x in cls:
+                ctx.known_hit(x)
             fam["known"] += 1
             continue
         ctx.disagreements += 1
